@@ -77,7 +77,7 @@ fn main() {
         "canon" => ops::replay_canon(&a),
         "op" => ops::replay_op(&a),
         "unit" => units::replay_unit(&a),
-        "sigflow" | "update" | "proofflow" | "blindflow" => flows::replay_flow(&a),
+        "sigflow" | "update" | "proofflow" | "blindflow" | "blindproofflow" => flows::replay_flow(&a),
         _ => (false, "unknown".to_string(), format!("unknown transport kind '{}'", kind)),
     };
     println!("REPLAY reproduced={} key={} detail={}", rep, key, detail.replace('\n', " "));
